@@ -36,10 +36,19 @@ Lemma tfor_step n x hv b i w : tfor (S n) x hv b i w =
   end.
 Proof. reflexivity. Qed.
 
+Lemma els_dec (els : elses) : {els = ENil} + {els <> ENil}.
+Proof. destruct els; [left; reflexivity|right; discriminate|right; discriminate]. Qed.
 Lemma mid_pos_hd els L : els <> ENil -> exists t, mid_pos els L = L :: t.
 Proof. destruct els; [congruence| |]; intros _; eexists; reflexivity. Qed.
 Lemma ce_nonnil els : els <> ENil -> exists i t, ce els = i :: t.
 Proof. destruct els; [congruence| |]; intros _; do 2 eexists; reflexivity. Qed.
+
+Lemma set_ifstk_push e f : set_ifstk (f_ifstk f) (if_push e f) = f.
+Proof. destruct f; reflexivity. Qed.
+Lemma nth_error_mid {A} (pfx : list A) x t : nth_error (pfx ++ x :: t) (length pfx) = Some x.
+Proof. rewrite nth_error_app2 by lia. now rewrite Nat.sub_diag. Qed.
+Lemma nth_error_mid1 {A} (pfx : list A) x y t : nth_error (pfx ++ x :: y :: t) (S (length pfx)) = Some y.
+Proof. rewrite nth_error_app2 by lia. replace (S (length pfx) - length pfx) with 1 by lia. reflexivity. Qed.
 
 Section Sim.
 Variable P : list instr.
@@ -194,50 +203,29 @@ Proof.
     assert (Hf2 : for_out (S p) (S p + nb) f2).
     { eapply for_out_same with (f := f); [cbn; exact S1c|]. eapply for_out_weaken; [| |exact Hf]; lia. }
     destruct (Hb b w1 w' (S p) Hwb Hpb Ht f2 I2 Hf2) as (f3 & R3 & I3 & F3).
+    fold nb in R3, F3.
     destruct (fr_if _ _ _ _ F3) as (Jb & Ei & Fi). cbn [f2 if_push f_ifstk set_ifstk] in Ei.
     rewrite S1a in Ei.
     assert (HE3 : aget Nat.eqb E (f_end f3) = Some gen_endif_name).
     { rewrite (fr_end _ _ _ _ F3) by lia. exact HE1. }
-    destruct els as [|sp' c' b' r|sp' b'] eqn:Eels.
+    destruct (els_dec els) as [Eels|Hne].
     + (* no else line: fall on the end line; the entry stays as junk *)
-      assert (ne = 0) by reflexivity. assert (E = S p + nb) by lia.
+      assert (ne = 0) by (unfold ne; rewrite Eels; reflexivity). assert (E = S p + nb) by lia.
       exists f3. split; [|split; [exact I3|]].
       * eapply runs_step_then; [exact St|]. eapply runs_trans; [exact R3|].
-        apply runs_step. replace (S p + nb) with E by lia. now apply close_if_step.
+        apply runs_step. replace (S p + nb) with E by lia. now apply (close_if_step E e).
       * destruct (fr_wh _ _ _ _ F3) as (Jw & Ew & Fw).
         apply (frame_intro p (S E) f f3 (Jb ++ [mkIC next true 0 m]) Jw).
         -- rewrite Ei, <- app_assoc. reflexivity.
         -- apply Forall_app. split.
            ++ eapply Forall_impl; [|exact Fi]. unfold if_junk. intros a [H1 H2]. split; [lia|exact H2].
-           ++ constructor; [|constructor]. unfold if_junk. cbn. lia.
+           ++ assert (Hnext : next = E) by (unfold next, m; cbn [im_else im_end]; rewrite Eels; reflexivity).
+              constructor; [|constructor]. unfold if_junk. cbn [ic_current ic_passed]. split; [lia|reflexivity].
         -- rewrite Ew. cbn. now rewrite S1b.
         -- eapply Forall_impl; [|exact Fw]. unfold wh_junk. intros a. lia.
         -- rewrite (fr_for _ _ _ _ F3). cbn. exact S1c.
         -- intros l Hl. rewrite (fr_end _ _ _ _ F3) by lia. cbn. apply (fr_end _ _ _ _ Fr1). exact Hl.
     + (* an elseif line follows: it pops the entry and jumps behind the block *)
-      rewrite <- Eels in *.
-      assert (Hne : els <> ENil) by (rewrite Eels; discriminate).
-      destruct (mid_pos_hd els (S p + nb) Hne) as (t & Ht0).
-      assert (Hnext : next = S p + nb) by (unfold next, m; cbn [im_else]; now rewrite Ht0).
-      rewrite Hnext in Ei.
-      exists (set_ifstk (f_ifstk f) f3). split; [|split].
-      * eapply runs_step_then; [exact St|]. eapply runs_trans; [exact R3|].
-        apply runs_step.
-        rewrite (else_passed els (S p + nb) [kw e ANone] w' f3 Jb 0 m (f_ifstk f) Hne Hwe Hpe Ei).
-        -- reflexivity.
-        -- eapply if_junk_ne; [exact Fi|lia].
-      * eapply Inv_same; [| | |exact I3]; reflexivity.
-      * destruct (fr_wh _ _ _ _ F3) as (Jw & Ew & Fw).
-        apply (frame_intro p (S E) f _ [] Jw).
-        -- reflexivity.
-        -- constructor.
-        -- cbn. rewrite Ew. cbn. now rewrite S1b.
-        -- eapply Forall_impl; [|exact Fw]. unfold wh_junk. intros a. lia.
-        -- cbn. rewrite (fr_for _ _ _ _ F3). cbn. exact S1c.
-        -- intros l Hl. cbn. rewrite (fr_end _ _ _ _ F3) by lia. cbn. apply (fr_end _ _ _ _ Fr1). exact Hl.
-    + (* an else line follows *)
-      rewrite <- Eels in *.
-      assert (Hne : els <> ENil) by (rewrite Eels; discriminate).
       destruct (mid_pos_hd els (S p + nb) Hne) as (t & Ht0).
       assert (Hnext : next = S p + nb) by (unfold next, m; cbn [im_else]; now rewrite Ht0).
       rewrite Hnext in Ei.
@@ -257,14 +245,12 @@ Proof.
         -- cbn. rewrite (fr_for _ _ _ _ F3). cbn. exact S1c.
         -- intros l Hl. cbn. rewrite (fr_end _ _ _ _ F3) by lia. cbn. apply (fr_end _ _ _ _ Fr1). exact Hl.
   - (* the condition fails *)
-    destruct els as [|sp' c' b' r|sp' b'] eqn:Eels.
-    + destruct n as [|n']; [discriminate|]. rewrite te_nil in Ht. inversion Ht; subst w'.
+    destruct (els_dec els) as [Eels|Hne].
+    + rewrite Eels in Ht. destruct n as [|n']; [discriminate|]. rewrite te_nil in Ht. inversion Ht; subst w'.
       exists f1. split; [|split; [exact I1|exact Fr1]].
       apply runs_step. eapply step1_goto; [exact Hn0|]. rewrite (disp_if P TW) by exact Hsp.
-      unfold step_if. rewrite Hmi, Ec. reflexivity.
-    + rewrite <- Eels in *.
-      assert (Hne : els <> ENil) by (rewrite Eels; discriminate).
-      destruct (mid_pos_hd els (S p + nb) Hne) as (t & Ht0).
+      unfold step_if. rewrite Hmi, Ec. unfold m at 1. cbn [im_else]. rewrite Eels. reflexivity.
+    +       destruct (mid_pos_hd els (S p + nb) Hne) as (t & Ht0).
       assert (St : step1 P (p, (w, f)) = Some (S p + nb, (w1, if_push (mkIC (S p + nb) false 0 m) f1))).
       { eapply step1_goto; [exact Hn0|]. rewrite (disp_if P TW) by exact Hsp.
         unfold step_if. rewrite Hmi, Ec. unfold m at 1. cbn [im_else]. rewrite Ht0. reflexivity. }
@@ -275,17 +261,330 @@ Proof.
       * exists f'. split; [|split; [exact I'|]].
         -- eapply runs_step_then; [exact St|exact R'].
         -- eapply frame_trans; [exact Fr1|exact F'].
-    + rewrite <- Eels in *.
-      assert (Hne : els <> ENil) by (rewrite Eels; discriminate).
-      destruct (mid_pos_hd els (S p + nb) Hne) as (t & Ht0).
-      assert (St : step1 P (p, (w, f)) = Some (S p + nb, (w1, if_push (mkIC (S p + nb) false 0 m) f1))).
-      { eapply step1_goto; [exact Hn0|]. rewrite (disp_if P TW) by exact Hsp.
-        unfold step_if. rewrite Hmi, Ec. unfold m at 1. cbn [im_else]. rewrite Ht0. reflexivity. }
-      destruct (Hch els w1 w' (S p + nb) e m [] p Hne Ht Hwe He Hpe eq_refl eq_refl) with (fb := f1)
-        as (f' & R' & I' & F'); auto.
-      * intros x Hx. cbn [m im_else im_end] in *. apply mid_pos_range in Hx. fold ne in Hx. unfold E. lia.
-      * eapply for_out_same; [exact S1c|exact Hf].
-      * exists f'. split; [|split; [exact I'|]].
-        -- eapply runs_step_then; [exact St|exact R'].
-        -- eapply frame_trans; [exact Fr1|exact F'].
+Qed.
+
+(* ---- the else chain: entered at an else line with the (passed = false) entry on top ---------- *)
+Lemma chain_case n : block_ok n -> chain_ok n -> chain_ok (S n).
+Proof.
+  intros Hb Hch els w w' L e m pfx p0 Hne Ht Hwe He Hp Hel Hend Hrange fb HI Hf HE.
+  set (entry := mkIC L false (length pfx) m).
+  assert (HL : p0 <= L < S (im_end m)).
+  { apply Hrange. rewrite Hel. destruct (mid_pos_hd els L Hne) as (t & ->). apply in_or_app. right. now left. }
+  destruct els as [|sp c b r|sp b]; [congruence| |].
+  - (* elseif *)
+    destruct Hwe as (Hsp & Hwb & Hwr).
+    cbn [ce app] in Hp. rewrite <- app_assoc in Hp.
+    pose proof (placed_nth _ _ _ _ Hp) as Hn0.
+    pose proof (placed_tail _ _ _ _ Hp) as Hp1.
+    pose proof (placed_app_l _ _ _ _ Hp1) as Hpb.
+    pose proof (placed_app_r _ _ _ _ Hp1) as Hpr.
+    cbn [mid_pos] in Hel. cbn [ce length] in Hend. rewrite app_length in Hend.
+    set (nb := length (cb b)) in *. set (nr := length (ce r)) in *.
+    assert (HEq : im_end m = S L + nb + nr) by lia.
+    rewrite te_elseif in Ht. destruct (eval_cond c w) as [v w1] eqn:Ec.
+    assert (Hpop : if_pop L (f_ifstk (if_push entry fb)) = (Some entry, f_ifstk fb)).
+    { cbn. now rewrite Nat.eqb_refl. }
+    assert (Hlen : length (im_else m) = length pfx + S (length (mid_pos r (S L + nb)))).
+    { rewrite Hel, app_length. reflexivity. }
+    destruct v.
+    + (* this branch is taken *)
+      destruct (els_dec r) as [Er|Hr].
+      * (* last else line: the entry pushed here stays as junk *)
+        assert (Hnr : nr = 0) by (unfold nr; rewrite Er; reflexivity).
+        assert (Hlt : (S (length pfx) <? length (im_else m)) = false).
+        { apply Nat.ltb_ge. rewrite Hlen, Er. cbn. lia. }
+        destruct (nth_error (im_else m) 0) as [x0|] eqn:Ex0.
+        2:{ apply nth_error_None in Ex0. rewrite Hlen in Ex0. lia. }
+        assert (Hx0 : p0 <= x0 < S (im_end m)) by (apply Hrange; eapply nth_error_In; eauto).
+        set (f2 := if_push (mkIC x0 true (length pfx) m) fb).
+        assert (St : step1 P (L, (w, if_push entry fb)) = Some (S L, (w1, f2))).
+        { eapply step1_continue; [exact Hn0|]. rewrite (disp_elseif P TW) by exact Hsp.
+          unfold step_elseif. rewrite Hpop. cbn [entry ic_passed ic_meta ic_idx]. rewrite Ec, Hlt, Ex0.
+          rewrite set_ifstk_push. reflexivity. }
+        assert (I2 : Inv P f2) by (eapply Inv_same; [| | |exact HI]; reflexivity).
+        assert (Hf2 : for_out (S L) (S L + nb) f2).
+        { eapply for_out_same with (f := fb); [reflexivity|]. eapply for_out_weaken; [| |exact Hf]; lia. }
+        destruct (Hb b w1 w' (S L) Hwb Hpb Ht f2 I2 Hf2) as (f3 & R3 & I3 & F3).
+        fold nb in R3, F3.
+        destruct (fr_if _ _ _ _ F3) as (Jb & Ei & Fi). cbn [f2 if_push f_ifstk set_ifstk] in Ei.
+        destruct (fr_wh _ _ _ _ F3) as (Jw & Ew & Fw).
+        assert (HnE : nth_error P (im_end m) = Some (kw e ANone)).
+        { rewrite Er in Hpr. cbn [ce app] in Hpr. fold nb in Hpr. apply placed_nth in Hpr.
+          rewrite HEq, Hnr, Nat.add_0_r. exact Hpr. }
+        exists f3. split; [|split; [exact I3|]].
+        -- eapply runs_step_then; [exact St|]. eapply runs_trans; [exact R3|].
+           apply runs_step. replace (S L + nb) with (im_end m) by lia.
+           apply (close_if_step (im_end m) e); auto.
+           rewrite (fr_end _ _ _ _ F3) by lia. exact HE.
+        -- apply (frame_intro p0 (S (im_end m)) fb f3 (Jb ++ [mkIC x0 true (length pfx) m]) Jw).
+           ++ rewrite Ei, <- app_assoc. reflexivity.
+           ++ apply Forall_app. split.
+              ** eapply Forall_impl; [|exact Fi]. unfold if_junk. intros a [H1 H2]. split; [lia|exact H2].
+              ** constructor; [|constructor]. unfold if_junk. cbn [ic_current ic_passed]. split; [lia|reflexivity].
+           ++ exact Ew.
+           ++ eapply Forall_impl; [|exact Fw]. unfold wh_junk. intros a. lia.
+           ++ exact (fr_for _ _ _ _ F3).
+           ++ intros l Hl. rewrite (fr_end _ _ _ _ F3) by lia. reflexivity.
+      * (* another else line follows: it pops the entry and jumps behind the block *)
+        destruct (mid_pos_hd r (S L + nb) Hr) as (t & Ht0).
+        assert (Hlt : (S (length pfx) <? length (im_else m)) = true).
+        { apply Nat.ltb_lt. rewrite Hlen, Ht0. cbn. lia. }
+        assert (Ex1 : nth_error (im_else m) (S (length pfx)) = Some (S L + nb)).
+        { rewrite Hel, Ht0. apply nth_error_mid1. }
+        set (f2 := if_push (mkIC (S L + nb) true (length pfx) m) fb).
+        assert (St : step1 P (L, (w, if_push entry fb)) = Some (S L, (w1, f2))).
+        { eapply step1_continue; [exact Hn0|]. rewrite (disp_elseif P TW) by exact Hsp.
+          unfold step_elseif. rewrite Hpop. cbn [entry ic_passed ic_meta ic_idx]. rewrite Ec, Hlt, Ex1.
+          rewrite set_ifstk_push. reflexivity. }
+        assert (I2 : Inv P f2) by (eapply Inv_same; [| | |exact HI]; reflexivity).
+        assert (Hf2 : for_out (S L) (S L + nb) f2).
+        { eapply for_out_same with (f := fb); [reflexivity|]. eapply for_out_weaken; [| |exact Hf]; lia. }
+        destruct (Hb b w1 w' (S L) Hwb Hpb Ht f2 I2 Hf2) as (f3 & R3 & I3 & F3).
+        fold nb in R3, F3.
+        destruct (fr_if _ _ _ _ F3) as (Jb & Ei & Fi). cbn [f2 if_push f_ifstk set_ifstk] in Ei.
+        destruct (fr_wh _ _ _ _ F3) as (Jw & Ew & Fw).
+        exists (set_ifstk (f_ifstk fb) f3). split; [|split].
+        -- eapply runs_step_then; [exact St|]. eapply runs_trans; [exact R3|].
+           apply runs_step.
+           rewrite (else_passed r (S L + nb) [kw e ANone] w' f3 Jb (length pfx) m (f_ifstk fb) Hr Hwr Hpr Ei).
+           ++ reflexivity.
+           ++ eapply if_junk_ne; [exact Fi|lia].
+        -- eapply Inv_same; [| | |exact I3]; reflexivity.
+        -- apply (frame_intro p0 (S (im_end m)) fb _ [] Jw).
+           ++ reflexivity.
+           ++ constructor.
+           ++ exact Ew.
+           ++ eapply Forall_impl; [|exact Fw]. unfold wh_junk. intros a. lia.
+           ++ exact (fr_for _ _ _ _ F3).
+           ++ intros l Hl. cbn. rewrite (fr_end _ _ _ _ F3) by lia. reflexivity.
+    + (* this branch is not taken *)
+      destruct (els_dec r) as [Er|Hr].
+      * rewrite Er in Ht. destruct n as [|n']; [discriminate|]. rewrite te_nil in Ht. inversion Ht; subst w'.
+        assert (Hlt : (S (length pfx) <? length (im_else m)) = false).
+        { apply Nat.ltb_ge. rewrite Hlen, Er. cbn. lia. }
+        exists fb. split; [|split; [exact HI|apply frame_refl]].
+        apply runs_step. eapply step1_goto; [exact Hn0|]. rewrite (disp_elseif P TW) by exact Hsp.
+        unfold step_elseif. rewrite Hpop. cbn [entry ic_passed ic_meta ic_idx]. rewrite Ec, Hlt.
+        rewrite set_ifstk_push. reflexivity.
+      * destruct (mid_pos_hd r (S L + nb) Hr) as (t & Ht0).
+        assert (Hlt : (S (length pfx) <? length (im_else m)) = true).
+        { apply Nat.ltb_lt. rewrite Hlen, Ht0. cbn. lia. }
+        assert (Ex1 : nth_error (im_else m) (S (length pfx)) = Some (S L + nb)).
+        { rewrite Hel, Ht0. apply nth_error_mid1. }
+        assert (St : step1 P (L, (w, if_push entry fb))
+                     = Some (S L + nb, (w1, if_push (mkIC (S L + nb) false (S (length pfx)) m) fb))).
+        { eapply step1_goto; [exact Hn0|]. rewrite (disp_elseif P TW) by exact Hsp.
+          unfold step_elseif. rewrite Hpop. cbn [entry ic_passed ic_meta ic_idx]. rewrite Ec, Hlt, Ex1.
+          rewrite set_ifstk_push. reflexivity. }
+        destruct (Hch r w1 w' (S L + nb) e m (pfx ++ [L]) p0 Hr Ht Hwr He Hpr) with (fb := fb)
+          as (f' & R' & I' & F'); auto.
+        -- rewrite Hel, <- app_assoc. reflexivity.
+        -- exists f'. split; [|split; [exact I'|exact F']].
+           eapply runs_step_then; [exact St|].
+           replace (length (pfx ++ [L])) with (S (length pfx)) in R' by (rewrite app_length; cbn; lia).
+           exact R'.
+  - (* else *)
+    destruct Hwe as (Hsp & Hwb).
+    cbn [ce app] in Hp.
+    pose proof (placed_nth _ _ _ _ Hp) as Hn0.
+    pose proof (placed_tail _ _ _ _ Hp) as Hp1.
+    pose proof (placed_app_l _ _ _ _ Hp1) as Hpb.
+    pose proof (placed_app_r _ _ _ _ Hp1) as Hpend.
+    cbn [ce length] in Hend.
+    set (nb := length (cb b)) in *.
+    assert (HEq : im_end m = S L + nb) by lia.
+    rewrite te_else in Ht.
+    assert (St : step1 P (L, (w, if_push entry fb)) = Some (S L, (w, fb))).
+    { eapply step1_continue; [exact Hn0|]. rewrite (disp_else P TW) by exact Hsp.
+      unfold step_else. cbn [if_push f_ifstk set_ifstk if_pop entry ic_current]. rewrite Nat.eqb_refl.
+      cbn [ic_passed]. fold (if_push entry fb). rewrite set_ifstk_push. reflexivity. }
+    assert (Hf2 : for_out (S L) (S L + nb) fb) by (eapply for_out_weaken; [| |exact Hf]; lia).
+    destruct (Hb b w w' (S L) Hwb Hpb Ht fb HI Hf2) as (f3 & R3 & I3 & F3).
+    fold nb in R3, F3.
+    exists f3. split; [|split; [exact I3|]].
+    + eapply runs_step_then; [exact St|]. eapply runs_trans; [exact R3|].
+      apply runs_step. replace (S L + nb) with (im_end m) by lia.
+      apply (close_if_step (im_end m) e); auto.
+      * apply placed_nth in Hpend. rewrite HEq. exact Hpend.
+      * rewrite (fr_end _ _ _ _ F3) by lia. exact HE.
+    + eapply frame_weaken; [| |exact F3]; lia.
+Qed.
+
+(* ---- while --------------------------------------------------------------------------------------- *)
+Lemma while_case n : stmt_ok n -> block_ok n -> forall sp c b e w w' p,
+  wfs (SWhile sp c b e) -> placed P p (cs (SWhile sp c b e)) ->
+  ts (S n) (SWhile sp c b e) w = TOk w' ->
+  exec_ok p (p + length (cs (SWhile sp c b e))) w w'.
+Proof.
+  intros Hs Hb sp c b e w w' p Hw Hp Ht f HI Hf.
+  pose proof (while_meta_placed P TW p sp c b e Hp Hw) as Hm.
+  pose proof (Hs (SWhile sp c b e) ) as Hself.
+  pose proof Hw as (Hsp & He & Hwb).
+  assert (Hq : p + length (cs (SWhile sp c b e)) = S (S p + length (cb b))).
+  { cbn [cs length]. rewrite !app_length. cbn [length]. lia. }
+  rewrite Hq in *.
+  set (nb := length (cb b)) in *. set (E := S p + nb) in *. set (m := mkLM p E) in *.
+  pose proof Hp as Hp0. cbn [cs] in Hp.
+  pose proof (placed_nth _ _ _ _ Hp) as Hn0.
+  pose proof (placed_tail _ _ _ _ Hp) as Hp1.
+  pose proof (placed_app_l _ _ _ _ Hp1) as Hpb.
+  pose proof (placed_app_r _ _ _ _ Hp1) as Hpend. fold nb in Hpend.
+  pose proof (placed_nth _ _ _ _ Hpend) as HnE. fold E in HnE.
+  destruct (while_meta_info_ok P f p m HI Hm) as (f1 & Hmi & I1 & SS1 & E1).
+  pose proof SS1 as (S1a & S1b & S1c).
+  assert (HE1 : aget Nat.eqb E (f_end f1) = Some gen_endwhile_name)
+    by (rewrite E1; apply aget_aset_same).
+  assert (Fr1 : frame p (S E) f f1) by (eapply frame_meta; eauto; cbn; lia).
+  rewrite ts_while in Ht. destruct (eval_cond c w) as [v w1] eqn:Ec.
+  destruct v.
+  - destruct (tb n b w1) as [w2| |] eqn:Eb; try discriminate.
+    set (f2 := wh_push m f1).
+    assert (St : step1 P (p, (w, f)) = Some (S p, (w1, f2))).
+    { eapply step1_continue; [exact Hn0|]. rewrite (disp_while P TW) by exact Hsp.
+      unfold step_while. rewrite Hmi, Ec. reflexivity. }
+    assert (I2 : Inv P f2) by (eapply Inv_same; [| | |exact I1]; reflexivity).
+    assert (Hf2 : for_out (S p) (S p + nb) f2).
+    { eapply for_out_same with (f := f); [cbn; exact S1c|]. eapply for_out_weaken; [| |exact Hf]; lia. }
+    destruct (Hb b w1 w2 (S p) Hwb Hpb Eb f2 I2 Hf2) as (f3 & R3 & I3 & F3).
+    fold nb in R3, F3. fold E in R3, F3.
+    destruct (fr_if _ _ _ _ F3) as (Jb & Ei & Fi). cbn [f2 wh_push f_ifstk set_whstk] in Ei.
+    destruct (fr_wh _ _ _ _ F3) as (Jw & Ew & Fw). cbn [f2 wh_push f_whstk set_whstk] in Ew.
+    rewrite S1a in Ei. rewrite S1b in Ew.
+    assert (HE3 : aget Nat.eqb E (f_end f3) = Some gen_endwhile_name).
+    { rewrite (fr_end _ _ _ _ F3) by lia. exact HE1. }
+    set (f4 := wh_push m (set_whstk (f_whstk f) f3)).
+    assert (St2 : step1 P (E, (w2, f3)) = Some (p, (w2, f4))).
+    { eapply step1_goto; [exact HnE|]. rewrite (close_while P TW) by auto.
+      unfold step_endwhile. rewrite Ew, wh_pop_junk.
+      - reflexivity.
+      - eapply wh_junk_ne; [exact Fw|lia].
+      - reflexivity. }
+    assert (I4 : Inv P f4) by (eapply Inv_same; [| | |exact I3]; reflexivity).
+    assert (Fr4 : frame p (S E) f f4).
+    { apply (frame_intro p (S E) f f4 Jb [m]).
+      - exact Ei.
+      - eapply Forall_impl; [|exact Fi]. unfold if_junk. intros a [H1 H2]. split; [lia|exact H2].
+      - reflexivity.
+      - constructor; [|constructor]. unfold wh_junk. cbn. lia.
+      - cbn. rewrite (fr_for _ _ _ _ F3). cbn. exact S1c.
+      - intros l Hl. cbn. rewrite (fr_end _ _ _ _ F3) by lia. cbn. apply (fr_end _ _ _ _ Fr1). exact Hl. }
+    assert (Hf4 : for_out p (S E) f4).
+    { eapply for_out_same; [exact (fr_for _ _ _ _ Fr4)|exact Hf]. }
+    destruct (Hself w2 w' p Hw Hp0 Ht f4 I4) as (f5 & R5 & I5 & F5).
+    { rewrite Hq. exact Hf4. }
+    rewrite Hq in R5, F5.
+    exists f5. split; [|split; [exact I5|]].
+    + eapply runs_step_then; [exact St|]. eapply runs_trans; [exact R3|].
+      eapply runs_step_then; [exact St2|exact R5].
+    + eapply frame_trans; [exact Fr4|exact F5].
+  - inversion Ht; subst w'.
+    exists f1. split; [|split; [exact I1|exact Fr1]].
+    apply runs_step. eapply step1_goto; [exact Hn0|]. rewrite (disp_while P TW) by exact Hsp.
+    unfold step_while. rewrite Hmi, Ec. reflexivity.
+Qed.
+
+(* ---- for-in -------------------------------------------------------------------------------------- *)
+Lemma loop_case n : block_ok n -> loop_ok n -> loop_ok (S n).
+Proof.
+  intros Hb Hl sp x hv b e i w w' p Ht Hw Hp fb f HI Hf Hentry.
+  pose proof (for_meta_placed P TW p sp x hv b e Hp Hw) as Hm.
+  pose proof Hw as (Hsp & He & Hwb).
+  set (nb := length (cb b)) in *. set (E := S p + nb) in *. set (m := mkLM p E) in *.
+  pose proof Hp as Hp0. cbn [cs] in Hp.
+  pose proof (placed_nth _ _ _ _ Hp) as Hn0.
+  pose proof (placed_tail _ _ _ _ Hp) as Hp1.
+  pose proof (placed_app_l _ _ _ _ Hp1) as Hpb.
+  pose proof (placed_app_r _ _ _ _ Hp1) as Hpend. fold nb in Hpend.
+  pose proof (placed_nth _ _ _ _ Hpend) as HnE. fold E in HnE.
+  (* the call info the opener works with, and the state after obtaining it *)
+  assert (Hci : exists f1,
+    (for_call_info P p f) = (Some (mkFC i m), f1) /\
+    Inv P f1 /\ same_stacks fb f1 /\ aget Nat.eqb E (f_end f1) = Some gen_endfor_name /\
+    (forall l, l <> E -> aget Nat.eqb l (f_end f1) = aget Nat.eqb l (f_end fb))).
+  { unfold for_call_info. destruct Hentry as [(Hi & ->)|(Hi & -> & HEb)].
+    - subst i. rewrite (for_pop_top_out p (S E) fb Hf) by lia. rewrite set_forstk_id. cbv zeta.
+      destruct (for_meta_info_ok P fb p m HI Hm) as (f1 & Hmi & I1 & SS1 & E1).
+      rewrite Hmi. exists f1. split; [reflexivity|]. split; [exact I1|]. split; [exact SS1|].
+      split; [rewrite E1; apply aget_aset_same|].
+      intros l Hne. rewrite E1. apply aget_aset_other. exact Hne.
+    - exists fb. cbn [for_push f_forstk set_forstk for_pop_top].
+      assert (Hfm : for_match p (mkFC i m) = true)
+        by (unfold for_match; cbn; rewrite Nat.eqb_refl; reflexivity).
+      rewrite Hfm. cbv beta iota zeta. fold (for_push (mkFC i m) fb). rewrite set_forstk_push.
+      split; [reflexivity|]. split; [exact HI|]. split; [repeat split|]. split; [exact HEb|]. auto. }
+  destruct Hci as (f1 & Hci & I1 & (S1a & S1b & S1c) & HE1 & Hend1).
+  assert (Fr1 : frame p (S E) fb f1).
+  { apply (frame_intro p (S E) fb f1 [] []); auto. intros l Hl0. apply Hend1. lia. }
+  rewrite tfor_step in Ht.
+  destruct (get_next_iteration i (vval hv w) w) as [v|] eqn:Eg.
+  - destruct (tb n b (vset x v w)) as [w2| |] eqn:Eb; try discriminate.
+    set (f2 := for_push (mkFC (S i) m) f1).
+    assert (St : step1 P (p, (w, f)) = Some (S p, (vset x v w, f2))).
+    { eapply step1_continue; [exact Hn0|]. rewrite (disp_for P TW) by exact Hsp.
+      unfold step_for. rewrite Hci. cbn [fc_iter fc_meta]. rewrite Eg. reflexivity. }
+    assert (I2 : Inv P f2) by (eapply Inv_same; [| | |exact I1]; reflexivity).
+    assert (Hf2 : for_out (S p) (S p + nb) f2).
+    { unfold for_out. cbn [f2 for_push f_forstk set_forstk]. constructor.
+      - unfold for_outside. cbn. lia.
+      - rewrite S1c. eapply for_out_weaken; [| |exact Hf]; lia. }
+    destruct (Hb b (vset x v w) w2 (S p) Hwb Hpb Eb f2 I2 Hf2) as (f3 & R3 & I3 & F3).
+    fold nb in R3, F3. fold E in R3, F3.
+    pose proof (fr_for _ _ _ _ F3) as Ef. cbn [f2 for_push f_forstk set_forstk] in Ef. rewrite S1c in Ef.
+    assert (HE3 : aget Nat.eqb E (f_end f3) = Some gen_endfor_name).
+    { rewrite (fr_end _ _ _ _ F3) by lia. exact HE1. }
+    set (fb' := set_forstk (f_forstk fb) f3).
+    assert (St2 : step1 P (E, (w2, f3)) = Some (p, (w2, for_push (mkFC (S i) m) fb'))).
+    { eapply step1_goto; [exact HnE|]. rewrite (close_for P TW) by auto.
+      unfold step_endfor. rewrite Ef. cbn [for_pop for_match fc_meta m lm_start lm_end].
+      rewrite Nat.eqb_refl, orb_true_r. reflexivity. }
+    assert (Ib' : Inv P fb') by (eapply Inv_same; [| | |exact I3]; reflexivity).
+    assert (Frb : frame p (S E) fb fb').
+    { destruct (fr_if _ _ _ _ F3) as (Jb & Ei & Fi). destruct (fr_wh _ _ _ _ F3) as (Jw & Ew & Fw).
+      cbn [f2 for_push f_ifstk f_whstk set_forstk] in Ei, Ew.
+      apply (frame_intro p (S E) fb fb' Jb Jw).
+      - cbn. rewrite Ei, S1a. reflexivity.
+      - eapply Forall_impl; [|exact Fi]. unfold if_junk. intros a [H1 H2]. split; [lia|exact H2].
+      - cbn. rewrite Ew, S1b. reflexivity.
+      - eapply Forall_impl; [|exact Fw]. unfold wh_junk. intros a. lia.
+      - reflexivity.
+      - intros l Hl. cbn. rewrite (fr_end _ _ _ _ F3) by lia. cbn. apply Hend1. lia. }
+    assert (Hfb' : for_out p (S E) fb') by (eapply for_out_same; [|exact Hf]; reflexivity).
+    destruct (Hl sp x hv b e (S i) w2 w' p Ht Hw Hp0 fb' (for_push (mkFC (S i) m) fb') Ib' Hfb')
+      as (f5 & R5 & I5 & F5).
+    { right. split; [lia|]. split; [reflexivity|]. exact HE3. }
+    exists f5. split; [|split; [exact I5|]].
+    + eapply runs_step_then; [exact St|]. eapply runs_trans; [exact R3|].
+      eapply runs_step_then; [exact St2|exact R5].
+    + eapply frame_trans; [exact Frb|exact F5].
+  - inversion Ht; subst w'.
+    exists f1. split; [|split; [exact I1|exact Fr1]].
+    apply runs_step. eapply step1_goto; [exact Hn0|]. rewrite (disp_for P TW) by exact Hsp.
+    unfold step_for. rewrite Hci. cbn [fc_iter fc_meta]. rewrite Eg. reflexivity.
+Qed.
+
+Lemma for_case n : loop_ok n -> forall sp x hv b e w w' p,
+  wfs (SFor sp x hv b e) -> placed P p (cs (SFor sp x hv b e)) ->
+  ts (S n) (SFor sp x hv b e) w = TOk w' ->
+  exec_ok p (p + length (cs (SFor sp x hv b e))) w w'.
+Proof.
+  intros Hl sp x hv b e w w' p Hw Hp Ht f HI Hf.
+  assert (Hq : p + length (cs (SFor sp x hv b e)) = S (S p + length (cb b))).
+  { cbn [cs length]. rewrite !app_length. cbn [length]. lia. }
+  rewrite Hq in *. rewrite ts_for in Ht.
+  apply (Hl sp x hv b e 0 w w' p Ht Hw Hp f f HI Hf). left. auto.
+Qed.
+
+(* ---- all together --------------------------------------------------------------------------------- *)
+Lemma sim_all n : stmt_ok n /\ block_ok n /\ chain_ok n /\ loop_ok n.
+Proof.
+  induction n as [|n (Hs & Hb & Hc & Hl)].
+  - repeat split; red; intros; cbn in *; discriminate.
+  - assert (Hb' : block_ok (S n)) by (apply block_case; assumption).
+    split; [|split; [exact Hb'|split; [apply chain_case; assumption|apply loop_case; assumption]]].
+    intros s w w' p Hw Hp Ht. destruct s as [p0|sp c b els e|sp c b e|sp x hv b e].
+    + eapply cmd_case; eauto.
+    + eapply if_case; eauto.
+    + eapply while_case; eauto.
+    + eapply for_case; eauto.
+Qed.
 End Sim.
